@@ -240,7 +240,7 @@ Lemma shard_bulk_ilv_quiet : forall pay d sg sh, quiet d sg ->
 Proof.
   intros pay d sg sh Hq. unfold shard_bulk_ilv, shard_bulk.
   assert (Hd : d || has_expire sg = d).
-  { destruct Hq as [->|->]; [reflexivity|apply orb_false_r]. }
+  { destruct Hq as [Hq1|Hq1]; rewrite Hq1; [reflexivity|apply orb_false_r]. }
   rewrite (reps_ilv_quiet pay d sg (s_reps sh) Hq).
   destruct (s_open sh) as [|[|] fl]; try (split; [reflexivity|auto]);
   destruct (send_reps pay d 0 (s_reps sh)) as [[a b] c]; split; reflexivity.
@@ -270,9 +270,9 @@ Proof.
   apply in_app_or in Hin as [Hin|Hin]; apply in_or_app; [left|right; eauto].
   unfold g_calls in Hin. unfold J in Hj. destruct (g_slot g) as [| | |ph|ph o|ph o]; simpl in Hin; try contradiction.
   destruct Hin as [<-|[]]. simpl in *. destruct Hj as (_ & _ & -> & ->).
-  assert (stored_of ph (head_out r) = true).
+  assert (HS : stored_of ph (head_out r) = true).
   { destruct ph; simpl in *; auto; try discriminate. destruct (head_out r); simpl in *; auto; discriminate. }
-  rewrite H0. left; reflexivity.
+  rewrite HS. left; reflexivity.
 Qed.
 
 Lemma send_reps_dead : forall pay rs i rs' calls ok,
@@ -285,11 +285,9 @@ Proof.
   - destruct (send_reps pay true (S i) rest) as [[rest' calls0] ok0] eqn:E.
     destruct (IH _ _ _ _ E) as (A & B & C).
     destruct (r_written r) eqn:W.
-    + inversion H; subst. simpl. rewrite A, W. repeat split; auto.
+    + inversion H; subst. simpl. rewrite A, ?W. repeat split; auto.
     + destruct (next_outcome (r_script r)) as [o0 sc]. simpl in H. inversion H; subst. simpl.
-      rewrite A, W. repeat split; auto.
-      * intros c [<-|Hc]; auto.
-      * discriminate.
+      rewrite A, ?W. repeat split; auto; try discriminate; try (intros c [<-|Hc]; auto).
 Qed.
 
 Definition bits_sh (sh : shard) : list bool := map r_written (s_reps sh).
